@@ -267,7 +267,7 @@ pub fn run_batch(prop: &dyn Prop, tier: Tier, seed: u64, budget_s: u64) -> Batch
                         results.lock().unwrap().insert(i, (case, o));
                     }
                     Err(e) => {
-                        errors.lock().unwrap().push(format!("case {}: {}", i, e));
+                        errors.lock().unwrap().push(format!("case {}: {}\n  case = {}", i, e, case));
                         stop.store(true, Ordering::SeqCst);
                     }
                 }
